@@ -8,11 +8,16 @@
   check runs the real reader under `catch_unwind`).
 -/
 import JrpcVerif.Proofs.ParamsLemmas
+import JrpcVerif.Proofs.LastCharLemmas
 namespace Jrpc
 
 /-- params text as jsonrpsee holds it: already trimmed (`RawValue` slices carry no outer whitespace) -/
 theorem c16_new_of_trimmed (t : Text) (h : trim t = t) : Params.new (some t) = ⟨some t⟩ := by
   simp [Params.new, h]
+
+/-- … and every raw value slice (what a `RawValue` holds) is already trimmed: `Params::new` keeps it -/
+theorem c16_new_of_slice (t : Text) (h : Stable t) : Params.new (some t) = ⟨some t⟩ :=
+  c16_new_of_trimmed t (trim_of_stable t h)
 
 /-- a JSON array text (starting at its `[`) puts the reader at its first element, or — when the
 array is empty, interior whitespace or not — in an exhausted state -/
